@@ -66,8 +66,8 @@ func DecodeEmsgSR(hdr BoxHeader, startPos uint64, sr bits.SliceReader) (Box, err
 	}
 
 	currPos := sr.GetPos()
-	nrBytesRead := currPos - initPos + boxHeaderSize
-	remainingBytes := int(hdr.Size) - nrBytesRead
+	nrBytesRead := currPos - initPos
+	remainingBytes := hdr.payloadLen() - nrBytesRead
 
 	if remainingBytes > 0 {
 		b.MessageData = sr.ReadBytes(remainingBytes)
